@@ -31,6 +31,36 @@ DEFAULT_PROFILE = {
 }
 
 
+def gen_bad(r: random.Random, num: int, p_bad: float) -> str:
+    """Failure pattern of an apply() request / of a SimpleTaskPool's function (label syntax, see
+    poolrun.bad_at).  With probability ~p_bad some call fails: every call ("1"), only the first,
+    only the last, or an arbitrary mix; explicit patterns may be shorter or longer than num (the
+    invocations beyond the pattern do not fail, the surplus entries are never reached)."""
+    if r.random() >= p_bad:
+        return "0"
+    n = max(num, 1)
+    x = r.random()
+    if x < 0.25:
+        return "1"
+    if x < 0.40:
+        bits = [True] + [False] * (n - 1)                 # the first call fails
+    elif x < 0.55:
+        bits = [False] * (n - 1) + [True]                 # the last call fails
+    elif x < 0.62:
+        bits = [True] * n                                 # all, spelled out
+    else:
+        bits = [r.random() < 0.45 for _ in range(n)]      # arbitrary subset
+        if n >= 2 and x < 0.85 and len(set(bits)) == 1:
+            k = r.randrange(n)
+            bits[k] = not bits[k]                         # make it a genuine mix
+    y = r.random()
+    if y < 0.1 and len(bits) > 1:
+        bits = bits[:-1]
+    elif y < 0.2:
+        bits = bits + [r.random() < 0.5]
+    return "p" + "".join("1" if b else "0" for b in bits)
+
+
 def mk_profile(**kw):
     p = dict(DEFAULT_PROFILE)
     p.update(kw)
@@ -51,7 +81,8 @@ class RandomSource:
         r, p = self.rng, self.p
         cbs = CBS if p["raises"] else CBS_NORAISE
         return {"size": r.choice(p["sizes"]), "kind": r.choice(p["kinds"]),
-                "bad": "1" if (p["raises"] and r.random() < 0.05) else "0",
+                # SimpleTaskPool: the function fails at these invocation indices of EACH start()
+                "bad": gen_bad(r, r.choice([1, 2, 3, 5]), 0.15 * p["raise_bias"]) if p["raises"] else "0",
                 "w": r.choice(WS if p["raises"] else ["sp", "sp", "sw", "rp"]),
                 "ecb": r.choice(cbs), "ccb": r.choice(cbs)}
 
@@ -77,12 +108,13 @@ class RandomSource:
         r = self.rng
         p_map = self.p["map_bias"]
         rb = self.p["raise_bias"]
-        bad = "1" if self.p["raises"] and r.random() < 0.08 * rb else "0"
         nonco = "1" if r.random() < 0.03 else "0"
         if run.cfg["kind"] == "simple":
             return f"start num={r.choice([0, 1, 1, 2, 3, 5])}"
         if r.random() >= p_map:
-            return (f"apply num={r.choice([0, 1, 1, 2, 3, 5, 9])} bad={bad} nonco={nonco} "
+            num = r.choice([0, 1, 1, 2, 3, 5, 9])
+            bad = gen_bad(r, num, 0.2 * rb) if self.p["raises"] else "0"
+            return (f"apply num={num} bad={bad} nonco={nonco} "
                     f"w={self._w()} ecb={self._cb()} ccb={self._cb()} g={self._gname_opt(run)}")
         n = r.choice([0, 1, 2, 3, 4, 6, 8])
         els = []
